@@ -147,10 +147,20 @@ def o_shift(c):
     if not cc.is_odd(a) and cc.roundtrips(a):
         if pt.shift(a.serialize(), k) != r.serialize():
             return 'peptacular.shift(str) differs from the annotation method'
-    # the identities as statements about the whole annotation (intervals included)
-    if cc.norm_dump(back) != cc.norm_dump(a) or not (back == a):
+    return None
+
+
+def o_shift_identity(c):
+    """shift k then -k, and shift by a multiple of the length, as identities on the whole annotation (intervals included)"""
+    _, d, k = c[:3]
+    a = annot.undump(d)
+    n = len(a._sequence)
+    r = a.shift(k)
+    back = r.shift(-k)
+    odd = cc.is_odd(a)   # the library == tells [] from None; shift normalises [] to None
+    if cc.norm_dump(back) != cc.norm_dump(a) or not (odd or back == a):
         return f'shift-identity-intervals: shift {k} then {-k} gives intervals {cc.ivs(back)} instead of {cc.ivs(a)}'
-    if e == 0 and (cc.norm_dump(r) != cc.norm_dump(a) or not (r == a)):
+    if k % n == 0 and (cc.norm_dump(r) != cc.norm_dump(a) or not (odd or r == a)):
         return f'shift-identity-intervals: shift by {k} (a multiple of the length {n}) gives intervals {cc.ivs(r)} instead of {cc.ivs(a)}'
     return None
 
@@ -307,7 +317,8 @@ def o_split(c):
     return None
 
 
-ORACLES = {'reverse': o_reverse, 'shift': o_shift, 'shuffle': o_shuffle, 'sort': o_sort, 'slice': o_slice, 'split': o_split}
+CORR_OPS = ('reverse', 'shift', 'shuffle', 'sort', 'slice', 'split')
+ORACLES = {'reverse': o_reverse, 'shift': o_shift, 'shift_identity': o_shift_identity, 'shuffle': o_shuffle, 'sort': o_sort, 'slice': o_slice, 'split': o_split}
 
 
 # ------------------------------------------------------------------------------------------------ corpus
@@ -328,7 +339,7 @@ def corpus_cases():
 def build_cases(chk, anns, tier, corr):
     """cases per op for a list of annotations; `corr` = include inplace variants and odd bounds (correspondence)"""
     rng = chk.rng
-    cases = {k: [] for k in ORACLES}
+    cases = {k: [] for k in CORR_OPS}
     for a in anns:
         d = annot.dump(a, sort_internal=False)
         n = len(a._sequence)
@@ -427,7 +438,7 @@ def run(chk):
 
     cases = build_cases(chk, anns, tier, corr=True)
     illc = build_cases(chk, ill, 'quick', corr=True)
-    for op in ORACLES:
+    for op in CORR_OPS:
         chk.correspond(op, DRV, cases[op] + illc[op], line_of, impl_of,
                        compare=lambda im, m: im == canon_reply(m), nontrivial_fn=nontrivial)
     if tier == 'thorough':
@@ -458,9 +469,26 @@ def run(chk):
     def o_nontrivial(c):
         return nontrivial(c, None)
 
-    for op in ORACLES:
+    for op in CORR_OPS:
         sel = [c for c in ocases[op] if len(annot.undump(c[1])._sequence) >= 1] if chk.broken() else ocases[op]
         chk.oracle(op, sel, ORACLES[op], nontrivial_fn=o_nontrivial, key_fn=lambda c: repr(c[:4]))
+    # whole-annotation identities of shift: evaluated beforehand so that a failure outside the known finding is listed first
+    # (the harness keeps the first few failures of an oracle only)
+    sid = {}
+    for c in ocases['shift']:
+        try:
+            sid[c[:3]] = o_shift_identity(c)
+        except Exception as e:  # noqa
+            sid[c[:3]] = f'unexpected {type(e).__name__}: {e}'
+
+    def rank(c):
+        r = sid[c[:3]]
+        if r is None:
+            return 2
+        return 1 if classify({'oracle': 'shift_identity', 'case': list(c), 'detail': r}) else 0
+
+    chk.oracle('shift_identity', sorted(ocases['shift'], key=rank), lambda c: sid[c[:3]], nontrivial_fn=o_nontrivial,
+               key_fn=lambda c: repr(c[:4]))
 
     if tier == 'thorough':
         chk.leanchecker(['PeptVerif.Model.Reorder', 'PeptVerif.Lemmas.Reorder', 'PeptVerif.Props.C11'])
@@ -470,12 +498,12 @@ def run(chk):
 def classify(f):
     """KF-C11-shift-intervals: only failures of the whole-annotation identity clauses of shift, on annotations with intervals,
     that disappear when the intervals are removed"""
-    if f['oracle'] in ('shift', 'corpus:shift') and str(f['detail']).startswith('shift-identity-intervals:'):
+    if f['oracle'] in ('shift_identity', 'corpus:shift_identity') and str(f['detail']).startswith('shift-identity-intervals:'):
         c = f['case']
         a = annot.undump(c[1])
         if a._intervals:
             a._intervals = None
-            if o_shift(('shift', annot.dump(a, sort_internal=False), c[2])) is None:
+            if o_shift_identity(('shift', annot.dump(a, sort_internal=False), c[2])) is None:
                 return 'KF-C11-shift-intervals'
     return None
 
